@@ -219,7 +219,7 @@ def write_evidence(prop, tier, base, ad, agg, det, reported, known_hits, wall, s
     stats = agg['stats']
     faults = {k[6:]: v for k, v in sorted(stats.items()) if k.startswith('fault.')}
     probes = {k[6:]: v for k, v in sorted(stats.items()) if k.startswith('probe.')}
-    other = {k: v for k, v in sorted(stats.items()) if not k.startswith(('fault.', 'probe.', 'fn.', 'r.', 'poison.', 'layout.'))}
+    other = {k: v for k, v in sorted(stats.items()) if not k.startswith(('fault.', 'probe.', 'fn.', 'r.', 'poison.', 'layout.', 'budget_use.'))}
     n = max(agg['n'], 0)
     cov = {
         'evaluations': n,
@@ -233,6 +233,7 @@ def write_evidence(prop, tier, base, ad, agg, det, reported, known_hits, wall, s
         'fault_counts_fired': faults,
         'probe_counts': probes,
         'counters': other,
+        'step_budget_use_per_call': {k[11:]: v for k, v in sorted(stats.items()) if k.startswith('budget_use.')},
         'distinct_states': {'count': len(agg['states']), 'measure': ad.STATE_MEASURE if hasattr(ad, 'STATE_MEASURE') else
                             'distinct sha256 of the sorted repr of cache keys observed after queries (opaque, counting only)'},
         'components': ad.COMPONENTS if hasattr(ad, 'COMPONENTS') else {
